@@ -4,6 +4,7 @@ from __future__ import annotations
 
 import math
 import re
+from collections.abc import Mapping
 from decimal import Decimal
 from functools import partial
 from itertools import chain
@@ -99,7 +100,8 @@ def first(obj: Any) -> object:
     if isinstance(obj, str):
         return None
 
-    if isinstance(obj, dict):
+    if isinstance(obj, Mapping):
+        # Any mapping, like a drop. Not just a dictionary.
         obj = list(islice(obj.items(), 1))
 
     try:
